@@ -194,7 +194,15 @@ def draw_edit(rng: random.Random, spec: T.Dict[str, T.Any]) -> T.Optional[T.Dict
     """An edit of the top or the sub option file; returns a description and mutates nothing."""
     where = 'sub' if (spec.get('sub') is not None and rng.random() < 0.4) else 'top'
     opts = spec[where]
-    kind = rng.choice(['add', 'remove', 'narrow', 'widen', 'default', 'range'])
+    kind = rng.choice(['add', 'remove', 'narrow', 'widen', 'default', 'range', 'swap'])
+    if kind == 'swap':
+        # one edit that removes an option and adds another (a rename): the file keeps its size
+        have = {o['name'] for o in opts}
+        cands = [o for o in EXTRA_POOL if o['name'] not in have]
+        rem = [o for o in opts if o['name'] not in ('yy', 'yc')]
+        if not cands or len(rem) <= 1:
+            return None
+        return {'where': where, 'kind': 'swap', 'name': rng.choice(rem)['name'], 'opt': copy.deepcopy(rng.choice(cands))}
     if kind == 'add':
         have = {o['name'] for o in opts}
         cands = [o for o in EXTRA_POOL if o['name'] not in have]
@@ -247,6 +255,10 @@ def apply_edit(spec: T.Dict[str, T.Any], ed: T.Dict[str, T.Any]) -> None:
             opts.append(copy.deepcopy(ed['opt']))
     elif ed['kind'] == 'remove':
         opts[:] = [o for o in opts if o['name'] != ed['name']]
+    elif ed['kind'] == 'swap':
+        opts[:] = [o for o in opts if o['name'] != ed['name']]
+        if not any(o['name'] == ed['opt']['name'] for o in opts):
+            opts.append(copy.deepcopy(ed['opt']))
     else:
         for o in opts:
             if o['name'] == ed['name']:
